@@ -17,6 +17,9 @@ for d in sorted((V / "seeded").iterdir()):
     pid = d.name.split("-")[0]
     if only and pid not in only:
         continue
+    if (d / "NEUTRALISED.txt").exists():
+        res[d.name] = {"applied": True, "neutralised": True, "why": (d / "NEUTRALISED.txt").read_text()[:400]}
+        continue
     patch = d / "patch.rebased.diff" if (d / "patch.rebased.diff").exists() else d / "patch.diff"
     assert subprocess.run(["git", "-C", str(R), "status", "--porcelain"], capture_output=True, text=True).stdout.strip() == "", "/repo not clean"
     a = subprocess.run(["git", "-C", str(R), "apply", str(patch)], capture_output=True, text=True)
